@@ -36,6 +36,7 @@ type VFs struct {
 	record   bool
 	seq      int
 	open     map[int]string // outstanding handles -> path
+	peak     int            // largest number of simultaneously outstanding handles
 	nextH    int
 	opened   int
 	closed   int
@@ -87,6 +88,10 @@ func (v *VFs) Outstanding() []string {
 	sort.Strings(out)
 	return out
 }
+
+// Peak returns the largest number of handles that were open at the same time.
+func (v *VFs) Peak() int { v.mu.Lock(); defer v.mu.Unlock(); return v.peak }
+
 func (v *VFs) Counts() (opened, closed, dbl int) {
 	v.mu.Lock()
 	defer v.mu.Unlock()
@@ -98,6 +103,9 @@ func (v *VFs) wrap(f afero.File, path string) afero.File {
 	v.nextH++
 	h := v.nextH
 	v.open[h] = path
+	if len(v.open) > v.peak {
+		v.peak = len(v.open)
+	}
 	v.opened++
 	v.mu.Unlock()
 	return &VFile{File: f, v: v, h: h, path: path}
